@@ -1,0 +1,45 @@
+//go:build verif
+
+// Gate points and accessors for the end-to-end C03 / C05 verification harness (/verif/harness/e2e).
+// initConnection calls verifGate at the two points that delimit the window between reading the
+// global push context and registering the connection for pushes ("init:after-lastpushcontext":
+// proxy.LastPushContext has been read, the connection is not yet in adsClients;
+// "init:after-addcon": the connection is registered, the proxy is not yet initialised). The harness
+// installs a callback that parks the calling goroutine so that the interleaving with a config push
+// can be scripted. Built only with -tags verif; without a callback nothing happens. The push queue
+// counters needed for quiescence detection are the ones of zz_verif_c01.go.
+package xds
+
+import (
+	"sync/atomic"
+
+	"istio.io/istio/pilot/pkg/model"
+)
+
+var verifGateFn atomic.Pointer[func(point string)]
+
+func verifGate(point string) {
+	if f := verifGateFn.Load(); f != nil {
+		(*f)(point)
+	}
+}
+
+// VerifE2ESetGate installs the gate callback (nil removes it).
+func VerifE2ESetGate(f func(point string)) {
+	if f == nil {
+		verifGateFn.Store(nil)
+		return
+	}
+	verifGateFn.Store(&f)
+}
+
+// VerifE2EGlobalPushContext exposes globalPushContext (the snapshot new connections are initialised from).
+func VerifE2EGlobalPushContext(s *DiscoveryServer) *model.PushContext {
+	return s.globalPushContext()
+}
+
+// VerifE2EDeltaReqChanLen returns the number of delta requests received from the stream that the
+// connection's main loop has not yet taken (0 for a state-of-the-world connection).
+func VerifE2EDeltaReqChanLen(c *Connection) int {
+	return len(c.deltaReqChan)
+}
